@@ -39,6 +39,36 @@ def check(ctx, recs):
                               r.inp(), rewards=rew, pruned=str(pr))
 
 
+def reward_tie_grids(ctx):
+    """a Player-1 / Player-2 root whose successors all reach the final state surely and collect the SAME expected reward,
+    but through float sums taken in different orders (0.7+0.2+0.1 = 0.9999999999999999, 0.1+0.2+0.7 = 1.0, ...): after
+    rounding to 6 digits they tie, so all must be listed"""
+    import itertools
+    from fractions import Fraction as Fr
+    orders = [[Fr(7, 10), Fr(2, 10), Fr(1, 10)], [Fr(1, 10), Fr(2, 10), Fr(7, 10)], [Fr(1)], [Fr(1, 2), Fr(1, 2)],
+              [Fr(6, 10), Fr(3, 10), Fr(1, 10)], [Fr(3, 10), Fr(6, 10), Fr(1, 10)]]
+    out = []
+    for kind in (P1, P2):
+        for k in (2, 3):
+            combos = list(itertools.product(range(len(orders)), repeat=k))
+            if ctx.quick:
+                combos = ctx.rng.sample(combos, min(40, len(combos)))
+            for combo in combos:
+                for unit in (1, 3):                      # reward collected at X
+                    X, F = k + 1, k + 2
+                    tl = [[(gen_games.ACTS[i], i + 1) for i in range(k)]]
+                    fr = [None]
+                    for c in combo:
+                        tl.append([(w.numerator / w.denominator if w != 1 else 1, X) for w in orders[c]])
+                        fr.append(list(orders[c]))
+                    tl += [[(1, F)], [(1, F)]]
+                    fr += [[Fr(1)], [Fr(1)]]
+                    g = dict(rewards=[0] * (k + 1) + [unit, 0], players=[kind] + [PR] * (k + 2),
+                             transition_list=tl, final_states=[F])
+                    out.append((g, dict(fr=fr, style="pattern")))
+    return out
+
+
 def run(ctx):
     games = [(gen_games.FIG55, gen_games.FIG55_META)] + sc.corpus_games() + gen_games.pattern_games(3)
     games += gen_games.mixed_games(ctx.rng, 250 if ctx.quick else 4000, 3, 9, styles=("stopping", "exact", "ties"))
@@ -50,6 +80,7 @@ def run(ctx):
             g2 = dict(g, final_states=list(g["final_states"]) + [ctx.rng.choice(cand)])
             extra.append((g2, dict(m, style="stopping", guard="any")))
     games += extra
+    games += reward_tie_grids(ctx)
     recs = sc.run_games(ctx, games, limit=10, tag="c05")
     sc.correspondence(ctx, recs, "cmp_final", "c05")
     check(ctx, recs)
